@@ -29,6 +29,41 @@ ENGINES = ["E1 source model", "E2 grammar model", "E3 dispatch", "builder-chain 
 HANDLER_IDIOMS = ("{p}", "{p}.copy()", "dict({p})", "{{**{p}}}")
 
 
+def _loop_names_are_scoped(ctx, rep):
+    """C01.v (F-107): the table of named break targets is dynamic scope. Statements are parsed back to front (C01.h), so whatever a loop leaves in the table after its body
+    has been parsed is seen by the statements IN FRONT of it; and a nested loop that overwrites an enclosing loop's entry without putting it back keeps hiding it. Every store
+    into the table that is followed by the parsing of a nested statement sequence must be undone after it: the saved entry restored, or the key removed."""
+    model = ctx.model
+    rep.rule("C01.v", "named break targets: an entry made for a loop is undone once the loop's body has been parsed (restored to the enclosing loop's, or removed)")
+    f = model.func("ParseCtx._parse_stmt")
+    n = 0
+    for st in ast.walk(f):
+        if not (isinstance(st, ast.Assign) and isinstance(st.targets[0], ast.Subscript) and ast.unparse(st.targets[0].value) == "self.break_handlers"):
+            continue
+        blk = model.parents.get(st)
+        seq = next((getattr(blk, fl) for fl in ("body", "orelse") if isinstance(getattr(blk, fl, None), list) and st in getattr(blk, fl)), None)
+        if seq is None:
+            continue
+        key = ast.unparse(st.targets[0].slice)
+        after = seq[seq.index(st) + 1:]
+        i_parse = next((i for i, x in enumerate(after) if "_parse_stmt_seq(" in ast.unparse(x)), None)
+        if i_parse is None:
+            continue      # a restoring store
+        n += 1
+        undo = after[i_parse + 1:]
+
+        def undoes(x):
+            t = ast.unparse(x)
+            return t.startswith(f"self.break_handlers[{key}] = ") or t in (f"self.break_handlers.pop({key}, None)", f"del self.break_handlers[{key}]")
+        ok = any(undoes(x) for x in undo) or any(isinstance(x, ast.If) and x.orelse and any(undoes(y) for y in x.body) and any(undoes(y) for y in x.orelse) for x in undo)
+        saved = any(isinstance(x, ast.Assign) and ast.unparse(x.value) in (f"self.break_handlers.get({key})", f"self.break_handlers[{key}]") for x in seq[:seq.index(st)])
+        rep.check(ok and saved, "C01.v", "ParseCtx._parse_stmt", f"self.break_handlers[{key}]: saved before, undone after the body on every path",
+                  f"the entry `self.break_handlers[{key}]` made for a loop stays in the table after its body has been parsed (or the enclosing loop's entry is not put back): a `break a` in front of "
+                  "an inner `loop a` leaves through that not yet entered loop instead of the enclosing `loop a`, and `break foo` in front of `loop foo` is accepted outside any such loop",
+                  line=st.lineno)
+    rep.check(n >= 1, "C01.v", "ParseCtx._parse_stmt", f"{n} scoping store(s) of named break targets examined", "the store of a loop's named break target was not found")
+
+
 def _start_state_path(ctx, rep):
     """C01.s / C01.t (F-87, F-88). chain_actions_into puts actions on the transitions ENTERING its target states. Two situations have no such transition to use:
     (s) the machine's own starting state - nothing points at it until the machine is joined to what precedes it - which is an end state exactly when the construct can
@@ -377,6 +412,7 @@ def run(ctx, rep, tier):
     rep.check(ok_emp, "C01.k", "DFA.append_after", "if the next statement can match nothing, the actions go onto the transitions entering the join states instead (and are not attached twice)",
               "empty-match chaining changed")
     _start_state_path(ctx, rep)
+    _loop_names_are_scoped(ctx, rep)
     for q in ("OptionalNode.convert", "TryExceptNode.convert", "ForeachNode.convert", "IfElseNode.convert"):
         f = model.func(q)
         src = ast.unparse(f)
